@@ -433,7 +433,11 @@ class RefModule:
             raise Reject("unknown state")
         targets = rv.N if key in cs else rv.E
         if key not in cs:
-            raise Unspec("edge clamps (index bookkeeping uses node labels)")
+            owner = self.syn_of_state(key)
+            if not targets or any(self.edges[e]["type"] != owner for e in targets):
+                raise Unspec("synaptic state clamped on a view without edges / with edges of another type")
+            if key == f"i_{owner}":
+                raise Unspec("clamp of a synaptic current")
         k = len(rows_of_samples)
         if k not in (1, len(targets)):
             raise Reject("batch does not match")
@@ -451,8 +455,9 @@ class RefModule:
     def delete_external(self, rv, key):
         """key 'i' = delete_stimuli; None = all clamps; else that clamp state."""
         keys = [k for k in self.externals if k != "i"] if key is None else [key]
-        s = set(rv.N)
+        cs_all = self.comp_states()
         for k in keys:
+            s = set(rv.N) if k in cs_all else set(rv.E)
             if k in self.externals:
                 # jaxley looks at the *view's* externals: key must be visible in the view
                 if not any(t in s for t, _ in self.externals[k]):
